@@ -82,7 +82,12 @@ func c10one(t *testing.T, out *verifh.Out, r *rand.Rand, dir string) {
 	semi := r.Intn(2) == 0
 	wd, tree, hosts := vStdWorld(n, semi, 1)
 	master := hosts[0]
-	cfg := vConfig(master, dir)
+	// the manager runs on the master or on a replica
+	local := master
+	if r.Intn(3) == 0 {
+		local = hosts[1+r.Intn(n-1)]
+	}
+	cfg := vConfig(local, dir)
 	cfg.SemiSync = semi
 	cfg.ReplicationRepairAggressiveMode = r.Intn(2) == 0
 	cfg.ReplicationRepairMaxAttempts = 1 + r.Intn(2)
@@ -134,9 +139,26 @@ func c10one(t *testing.T, out *verifh.Out, r *rand.Rand, dir string) {
 	}
 	fault := r.Intn(4) == 0
 	passes := 2 + r.Intn(5)
+	// a host is taken out of the registry between two passes (the operator removes it): from then on it is a server like
+	// the decoys — the manager's own host included
+	dropAt, dropHost := -1, ""
+	if r.Intn(4) == 0 {
+		dropAt = r.Intn(passes)
+		dropHost = hosts[1+r.Intn(n-1)]
+		if local != master && r.Intn(2) == 0 {
+			dropHost = local
+		}
+	}
 	for p := 0; p < passes; p++ {
 		if p > 0 {
 			time.Sleep([]time.Duration{0, 61 * time.Second, 61 * time.Second}[r.Intn(3)])
+		}
+		if p == dropAt {
+			tree.Del("ha_nodes/" + dropHost)
+			if err := app.cluster.UpdateHostsInfo(); err != nil {
+				t.Fatal(err)
+			}
+			decoys = append(decoys, dropHost)
 		}
 		wd.ClearFaults()
 		fh, fo := "", ""
@@ -226,7 +248,7 @@ func c10one(t *testing.T, out *verifh.Out, r *rand.Rand, dir string) {
 		out.Line(map[string]any{"k": "c10pass", "cfg": map[string]any{"aggressive": cfg.ReplicationRepairAggressiveMode, "max_attempts": cfg.ReplicationRepairMaxAttempts, "cooldown": int64(cfg.ReplicationRepairCooldown)},
 			"cs": vCSList(cs), "master": master, "hosts": hosts, "now": now.UnixNano(), "repair_before": before, "repair_after": after,
 			"acts": perHost, "raw_ops": rawOps, "decoy_hits": decoyHits, "self_source": selfSource, "master_writes": masterWrites, "fault": map[string]string{"host": fh, "op": fo},
-			"panic": panicked, "pass": p, "passes": passes, "start_clears": startClears, "faulty_run": fault, "nodes_after": wd.Digest(), "executed_before": executedBefore})
+			"panic": panicked, "pass": p, "passes": passes, "start_clears": startClears, "faulty_run": fault, "nodes_after": wd.Digest(), "executed_before": executedBefore, "dropped": map[bool]string{true: dropHost, false: ""}[dropAt >= 0 && p >= dropAt], "local": local})
 		_ = strings.Join
 		if panicked != "" {
 			break
